@@ -118,7 +118,7 @@ impl Prop for C18 {
         4
     }
     fn cases(&self, ctx: &Ctx) -> u64 {
-        ctx.tier.pick(48, 1_200)
+        ctx.tier.pick(128, 1_000)
     }
     fn rule(&self) -> &'static str {
         "real binary, files mode: batches of 20-120 (quick) / 20-400 (thorough) files with heavy-tailed sizes (1 byte to ~150 KiB), mixed BOM encodings (none, UTF-8, UTF-16LE/BE), duplicated names in sub-directories, failing subsets (missing, undecodable, directory named *.pas) x RAYON_NUM_THREADS in {1,2,3,8,16,64} x PASFMT_VERIF_DELAY_SEED (hook: deterministic per-file delays before read and before write move the work-stealing decisions); oracle: every file byte-equal to the result of formatting it alone with the same binary; failing members untouched, others unaffected; exit status != 0 iff some member failed. The schedule is observed through the hook trace (thread, order, reused buffer capacity): evidence counts distinct schedules and shorter-after-longer buffer reuses. Non-trivial: batch in which some worker handled >= 3 files of different lengths; distinct by schedule signature."
